@@ -139,6 +139,24 @@ B64D = fun("base64_b64decode", S, S)
 REPLACE_ALL = fun("str_replace_all", S, S, S, S)       # x.replace(old, new)
 LOWER = z3.Function("str_lower", S, S)                 # same symbol as contracts/C07.py
 LSTRIP = z3.Function("str_lstrip", S, S)               # str.lstrip() (uninterpreted)
+# (round 7) re.split(pattern, s): ASSUMED total, at least one piece; the pieces are functions of (pattern, s)
+RSPL_N = fun("re_split_n", S, S, I)
+RSPL_AT = fun("re_split_at", S, S, I, S)
+# (round 7) names for the result of the VERIFIED, deterministic msg._parse_single_recipient(raw) at call sites (conservative extension:
+# the body is a function of `raw`); what they are is given by the ensures clauses of its contract, nothing else is assumed about them
+PSR_NONE = fun("psr_is_none", S, B)
+PSR_NAME = fun("psr_name", S, S)
+PSR_ADDR = fun("psr_address", S, S)
+CNT_PSR = fun("cnt_recipients", S, S, I, I)   # number of pieces of re.split(P, s)[:i] that give a recipient with a name or an address
+
+
+def psr_keep(P, s, k):
+    part = RSPL_AT(P, s, k)
+    return z3.And(z3.Not(PSR_NONE(part)), z3.Or(z3.Length(PSR_NAME(part)) > 0, z3.Length(PSR_ADDR(part)) > 0))
+
+
+def cnt_psr_def(P, s, j):
+    return CNT_PSR(P, s, j) == z3.If(j <= 0, 0, CNT_PSR(P, s, j - 1) + z3.If(psr_keep(P, s, j - 1), 1, 0))
 
 # re: match list of a compiled pattern over data
 PatS = ext_sort("RePattern")
@@ -1185,7 +1203,15 @@ class MailExecutor(UnitsExecutor):
 
     def summarise_call(self, st, f, args, kwargs, node):
         from pyvc import loader as _l
-        if f.a not in self.SUMMARISE or self.reg.get(f"{f.a}::{f.b}") is not None or "." in f.b or not f.b.startswith("_") or kwargs:
+        reg_c = self.reg.get(f"{f.a}::{f.b}")
+        # (round 7) a contract may be verified under a precondition its call sites do not establish (`_parse_multi_recipients` is
+        # verified for a str, the message properties may be lists): such a contract sets `summary_at_call_sites` and its callers keep
+        # the summarised view -- a deterministic function of the arguments, which any contract of a deterministic body implies
+        if reg_c is not None and not getattr(reg_c, "summary_at_call_sites", False):
+            return None
+        if reg_c is not None and self.contract is reg_c:
+            return None                 # the function's own recursive calls are not summarised
+        if f.a not in self.SUMMARISE or "." in f.b or not f.b.startswith("_") or kwargs:
             return None
         fnode = _l.module(f.a, self.module.repo).functions.get(f.b)
         if fnode is None or fnode.returns is None:
@@ -1951,6 +1977,27 @@ def install(reg):
         return m_re_search(ex, st, [VStr(pat), a[0]], {}, n)
 
     reg.ext_models["re.search"] = m_re_search
+
+    def m_re_split(ex, st, args, kwargs, node):
+        """(round 7) re.split(pattern, s) for a constant pattern: ASSUMED total; a list of RSPL_N >= 1 pieces, functions of (pattern, s).
+        The last split is recorded in the ghost `re_split_arg` (clauses say WHAT was split by WHICH pattern)."""
+        pat = args[0].const() if args and isinstance(args[0], VStr) else None
+        if pat is None or len(args) != 2 or kwargs or not isinstance(args[1], VStr):
+            raise Unsupported(f"{ex.loc(node)} re.split with a non-constant pattern / maxsplit / flags")
+        P, s_ = z3.StringVal(pat), args[1].t
+        st.assume(RSPL_N(P, s_) >= 1)
+        st.ghost["re_split_arg"] = (P, s_)
+        return [(st, VSeq(RSPL_N(P, s_), lambda k: VStr(RSPL_AT(P, s_, k)), "str"))]
+
+    def m_pat_split(ex, st, o, a, k, n):
+        t = o.t
+        pat = t.arg(0).as_string() if z3.is_app(t) and t.decl().name() == "re_compiled" and z3.is_string_value(t.arg(0)) else None
+        if pat is None or len(a) != 1 or k:
+            raise Unsupported(f"{ex.loc(n)} pattern.split on an unknown pattern / with maxsplit")
+        return m_re_split(ex, st, [VStr(pat), a[0]], {}, n)
+
+    reg.ext_models["re.split"] = m_re_split
+    reg.method_models[("RePattern", "split")] = m_pat_split
     reg.method_models[("RePattern", "search")] = m_pat_search
     reg.method_models[("SMatch", "group")] = m_sm_group
     reg.method_models[("SMatch", "start")] = m_sm_start
